@@ -20,6 +20,10 @@ type istage struct {
 	floor func(in []int) int
 	// eagerN > 0: the stage consumes eagerN elements of its input when it is constructed.
 	eagerN int
+	// look: documented look-ahead of the combinator, in elements of its own input beyond what the
+	// demand on its output requires (end-to-end bound): 1 for the one-element prefetch of
+	// ToList/Collect and for Zip, which asks its first argument before its second.
+	look int
 }
 
 type ikind struct {
@@ -300,7 +304,7 @@ var iterKinds = []ikind{
 	}},
 	{"iterator.Zip(src,other)", func(x *mc.X, pos int, red bool) istage {
 		o := pickOther(x, zipOthers, red, "other")
-		return istage{label: "Zip(src," + short(o) + ")", ref: refZipL(o),
+		return istage{label: "Zip(src," + short(o) + ")", ref: refZipL(o), look: 1,
 			build: func(e *env, cb *int, in fp.Iterator[int]) fp.Iterator[int] {
 				return glue(iterator.Zip(in, fp.IteratorOfSeq(o)), func(t fp.Tuple2[int, int]) int { return enc(t.I1, t.I2) })
 			}}
@@ -397,13 +401,13 @@ var iterKinds = []ikind{
 			}}
 	}},
 	{"iterator.ToList+FromList", func(x *mc.X, pos int, red bool) istage {
-		return istage{label: "FromList(ToList(src))", ref: cp,
+		return istage{label: "FromList(ToList(src))", ref: cp, look: 1,
 			build: func(e *env, cb *int, in fp.Iterator[int]) fp.Iterator[int] {
 				return iterator.FromList(iterator.ToList(in))
 			}}
 	}},
 	{"list.Collect+iterator.List", func(x *mc.X, pos int, red bool) istage {
-		return istage{label: "iterator.List(list.Collect(src))", ref: cp,
+		return istage{label: "iterator.List(list.Collect(src))", ref: cp, look: 1,
 			build: func(e *env, cb *int, in fp.Iterator[int]) fp.Iterator[int] { return iterator.List(list.Collect(in)) }}
 	}},
 }
